@@ -1,16 +1,61 @@
-"""C17 fallback: generator, independent monitor."""
+"""C17 fallback: generator, independent monitor.
+
+The monitor states the PROPERTY over the implementation's trace: a success comes back unchanged and invokes
+nothing of the fallback (no predicate, no strategy closure, no backup call — also not ahead of / while waiting
+for the inner call); an error the predicate refuses comes back unchanged as Inner and runs no strategy; an
+accepted error yields exactly what the configured strategy specifies for that call's own request and error;
+the inner (and, for the Service strategy, the backup) service is called once with that call's request. How often
+the predicate is evaluated, the order of the events of different calls, the flags of ineffective script
+operations and the treatment of readiness errors are pinned by the trace comparison with the model only."""
+import itertools
+
 PROP = "C17"
 DRIVER = "c17"
 MODEL = "C17"
 MODEL_QUALID = "Model.Fallback.run_script"
-FORMAT = "[strategy 0..5 (value,value_fn,from_error,from_request_error,service,exception); pred_mode mod 4: 0=none 1=even-errors 2=all 3=none-accepted, pred_mode >= 4: the builder calls handle() BEFORE the strategy setter; value; req; inner_kind 0=ok 1=err; inner_val; backup_kind; backup_val] -> [n_inner_calls; req_seen_by_inner; n_backup_calls; req_seen_by_backup; result_kind 0=Ok 1=Err(Inner) 2=Err(FallbackFailed); payload]"
-RULE = "full grid strategies x predicates x inner/backup outcomes x payloads (finite, enumerated completely) plus random payloads; non-trivial = the inner call failed (a fallback decision is taken)"
-TRUSTED = ["closures passed to the layer (fe, fre, fx, predicates) are mirrored by hand in Model/Fallback.v run_script and harness/src/bin/c17.rs"]
-ASSUMPTIONS = ["backup service and strategy closures are deterministic functions of their arguments"]
+FORMAT = ("[strategy 0..5 (value,value_fn,from_error,from_request_error,service,exception); pred_mode: bits0-1 0=none "
+          "1=even-errors 2=all 3=none-accepted, +4: the builder calls handle() BEFORE the strategy setter, +8 name() first, "
+          "+16 on_event() between the setters, +32 name()+on_event() last, +64 decoy strategy setter first, +128 convenience "
+          "constructor of layer.rs (only without predicate); value; req; inner_kind 0=ok 1=err; inner_val; backup_kind; "
+          "backup_val] ++ (op,a,b)*: 1 CALL (a 0 service/1 clone/2 fresh clone, b request), 2 POLL call a, 3 INNER_DONE "
+          "(call a, outcome b), 4 BACKUP_DONE (call a, outcome b), 5 DROP call a, 6 READY_FAIL (handle a, error b); outcome "
+          "b mod 4: 0 Ok(b div 4) 1 Err(b div 4) 2,3 panic; no ops = CALL req; POLL; INNER_DONE; POLL; BACKUP_DONE; POLL with the "
+          "header's outcomes -> [n_calls; (result_kind 0=Ok 1=Err(Inner) 2=Err(FallbackFailed) 3=panicked 4=dropped 5=unfinished, "
+          "payload)*; n_ready; (kind,payload)*; n_ops; effect flag*; n_events; (call, kind 0=inner(req) 1=predicate(e) 2=value_fn "
+          "3=from_error(e) 4=from_request_error(req,e) 5=backup(req) 6=exception(e), a, b)*]")
+RULE = ("full grid strategies x predicates x builder order x inner/backup outcomes x payloads (finite, enumerated completely); "
+        "builder routes (name(), on_event(), overridden strategy setter, convenience constructors); random payloads; random "
+        "op scripts: 1-4 overlapping calls with distinct requests through the service / a clone / fresh clones, inner and "
+        "backup answers (ok, error, panic) delivered in random order between hand polls, futures dropped half-way, "
+        "duplicate / misdirected operations, readiness errors; thorough: every op sequence of length <= 4 over an 8-letter "
+        "alphabet after two calls; non-trivial = some call's inner service failed (a fallback decision is taken)")
+TRUSTED = ["closures passed to the layer (fe, fre, fx, predicates) are mirrored by hand in Model/Fallback.v run_script and "
+           "harness/src/bin/c17.rs; each logs its invocation, tagged with the call being polled"]
+ASSUMPTIONS = ["backup service and strategy closures are deterministic functions of their arguments",
+               "a readiness error of the inner service is not an 'inner error' of a call: the crate reports it as Inner(e) "
+               "without consulting predicate or strategy (modelled so; the monitor also accepts the exception strategy applied)"]
+
+
+def header(st, pm, v=9, req=0, ik=0, iv=0, bk=0, bv=0):
+    return [st, pm, v, req, ik, iv, bk, bv]
 
 
 def corpus():
-    return [[4, 1, 9, 5, 1, 8, 1, 77], [0, 1, 9, 5, 1, 7, 0, 0]]
+    return [
+        [4, 1, 9, 5, 1, 8, 1, 77], [0, 1, 9, 5, 1, 7, 0, 0],
+        # two overlapping calls answered in reverse order (from_request_error), then a third that succeeds
+        header(3, 0) + [1, 0, 5, 1, 1, 6, 2, 0, 0, 2, 1, 0, 3, 1, 41, 3, 0, 29, 2, 1, 0, 2, 0, 0, 1, 2, 8, 2, 2, 0, 3, 2, 400, 2, 2, 0],
+        # backup service: dropped between the inner failure and the backup answer; a second call completes
+        header(4, 1) + [1, 0, 5, 1, 1, 6, 2, 0, 0, 2, 1, 0, 3, 0, 4 * 8 + 1, 3, 1, 4 * 6 + 1, 2, 0, 0, 2, 1, 0, 5, 0, 0, 4, 0, 4 * 700,
+                        4, 1, 4 * 801 + 1, 2, 1, 0],
+        # readiness error, then a normal call; inner panic
+        header(5, 2) + [6, 0, 33, 1, 0, 4, 2, 0, 0, 3, 0, 2, 2, 0, 0, 6, 1, 34],
+        # convenience constructor, overridden strategy setter, name/on_event around handle
+        header(1, 128, ik=1, iv=6), header(2, 64 + 32 + 16 + 8 + 4 + 1, ik=1, iv=6), header(0, 64 + 2, ik=1, iv=7),
+    ]
+
+
+ROUTES_QUICK = [1, 2, 4, 8, 16, 3, 12, 21, 31]
 
 
 def generate(rng, tier):
@@ -22,43 +67,250 @@ def generate(rng, tier):
                     for bk in (0, 1):
                         for req in (0, 5):
                             out.append([st, pm, 9, req, ik, iv, bk, 77])
+    routes = ROUTES_QUICK if tier == "quick" else range(1, 32)
+    for st in range(6):
+        for pm in range(8):
+            for route in routes:
+                for iv in (6, 7):
+                    out.append([st, pm + 8 * route, 9, 5, 1, iv, (route + iv) % 2, 77])
+                out.append([st, pm + 8 * route, 9, 5, 0, 6, 0, 77])
     n = 200 if tier == "quick" else 5000
     for _ in range(n):
-        out.append([rng.randrange(6), rng.randrange(8), rng.randrange(-50, 50), rng.randrange(-100, 100),
-                    rng.randrange(2), rng.randrange(-1000, 1000), rng.randrange(2), rng.randrange(-1000, 1000)])
+        out.append([rng.randrange(6), rng.randrange(8) + 8 * rng.choice([0, 0, rng.randrange(32)]), rng.randrange(-50, 50),
+                    rng.randrange(-100, 100), rng.randrange(2), rng.randrange(-1000, 1000), rng.randrange(2),
+                    rng.randrange(-1000, 1000)])
+    for _ in range(1500 if tier == "quick" else 40000):
+        out.append(rand_ops_script(rng))
+    if tier == "thorough":
+        out += exhaustive()
     return out
+
+
+def enc(kind, val=0):
+    return 4 * val + kind
+
+
+def rand_ops_script(rng):
+    st = rng.randrange(6)
+    pm = rng.randrange(8) + 8 * rng.choice([0, 0, 0, rng.randrange(32)])
+    nc = rng.randrange(1, 5)
+    reqs = rng.sample(range(0, 21), nc)
+    plans = []
+    for k in range(nc):
+        c = rng.random()
+        if c < 0.3:
+            io = enc(0, rng.randrange(300, 400))
+        elif c < 0.93:
+            io = enc(1, rng.randrange(-10, 31))
+        else:
+            io = enc(2)
+        c = rng.random()
+        bo = enc(0, rng.randrange(700, 800)) if c < 0.5 else enc(1, rng.randrange(800, 900)) if c < 0.93 else enc(2)
+        plan = [(2, k, 0), (3, k, io), (2, k, 0), (4, k, bo), (2, k, 0)]
+        if rng.random() < 0.15:
+            plan.insert(rng.randrange(len(plan) + 1), (5, k, 0))          # dropped somewhere
+        if rng.random() < 0.2:
+            plan.insert(rng.randrange(len(plan) + 1), (2, k, 0))          # extra poll
+        if rng.random() < 0.15:
+            plan.insert(rng.randrange(len(plan) + 1), (rng.choice([3, 4]), k, enc(rng.randrange(2), rng.randrange(900, 999))))
+        if rng.random() < 0.1:
+            plan = plan[:rng.randrange(len(plan))]                       # left unfinished
+        plans.append(plan)
+    ops = []
+    created = 0
+    pending = [list(p) for p in plans]
+    while created < nc or any(pending[k] for k in range(created)):
+        choices = [k for k in range(created) if pending[k]]
+        if created < nc and (not choices or rng.random() < 0.35):
+            ops.append((1, rng.randrange(3), reqs[created]))
+            created += 1
+        else:
+            k = rng.choice(choices)
+            ops.append(pending[k].pop(0))
+        c = rng.random()
+        if c < 0.04:
+            ops.append((6, rng.randrange(3), rng.randrange(-10, 31)))
+        elif c < 0.07:
+            ops.append((rng.choice([2, 3, 4, 5]), rng.choice([-1, nc, nc + 3, created]), enc(1, 6)))
+        elif c < 0.08:
+            ops.append((rng.choice([0, 7, 9]), 0, 0))
+    s = header(st, pm, v=rng.choice([9, 9, rng.randrange(-50, 50)]))
+    for o in ops:
+        s += list(o)
+    return s
+
+
+def exhaustive():
+    """every op sequence of length <= 4 after two calls, over a small alphabet"""
+    alpha = [(2, 0, 0), (2, 1, 0), (3, 0, enc(0, 300)), (3, 0, enc(1, 6)), (3, 1, enc(1, 7)), (4, 0, enc(0, 700)),
+             (4, 1, enc(1, 800)), (5, 0, 0)]
+    out = []
+    for st, pm in ((3, 0), (4, 1), (4, 0), (5, 1), (1, 3)):
+        for n in range(1, 5):
+            for seq in itertools.product(alpha, repeat=n):
+                s = header(st, pm) + [1, 0, 5, 1, 1, 8, 2, 0, 0, 2, 1, 0]
+                for o in seq:
+                    s += list(o)
+                out.append(s)
+    return out
+
+
+def ops_of(s):
+    raw = [tuple(s[i:i + 3]) for i in range(8, len(s) - 2, 3)]
+    if raw:
+        return raw
+    req = s[3]
+    io = 4 * (s[5] + 11 * req) if s[4] == 0 else 4 * s[5] + 1
+    bo = 4 * (s[7] + 13 * req) if s[6] == 0 else 4 * s[7] + 1
+    return [(1, 0, req), (2, 0, 0), (3, 0, io), (2, 0, 0), (4, 0, bo), (2, 0, 0)]
+
+
+def outcome(b):
+    return (b % 4 if b % 4 < 2 else 2, b // 4)
+
+
+def decode(t):
+    try:
+        i = 0
+        nc = t[i]; i += 1
+        calls = [(t[i + 2 * j], t[i + 2 * j + 1]) for j in range(nc)]; i += 2 * nc
+        nr = t[i]; i += 1
+        ready = [(t[i + 2 * j], t[i + 2 * j + 1]) for j in range(nr)]; i += 2 * nr
+        no = t[i]; i += 1
+        flags = t[i:i + no]; i += no
+        ne = t[i]; i += 1
+        events = [tuple(t[i + 4 * j:i + 4 * j + 4]) for j in range(ne)]; i += 4 * ne
+        if i != len(t) or len(flags) != no or (events and len(events[-1]) != 4):
+            return None
+        return calls, ready, flags, events
+    except IndexError:
+        return None
 
 
 def monitor(s, t):
     """independent restatement of the property over the implementation's trace"""
-    if len(t) != 6:
-        return "malformed or panicking run: %s" % t
-    st, pm, v, req, ik, iv, bk, bv = s
-    n_in, req_in, n_b, req_b, kind, payload = t
-    if n_in != 1 or req_in != req:
-        return "inner service must be called exactly once with the original request"
-    if ik == 0:
-        if (kind, payload) != (0, iv + 11 * req) or n_b != 0:
-            return "a successful inner response was replaced or triggered the fallback"
-        return None
-    e = iv
-    handled = {0: True, 1: e % 2 == 0, 2: True, 3: False}[pm % 4]
-    if not handled:
-        if (kind, payload) != (1, e) or n_b != 0:
-            return "error refused by the predicate must come back unchanged as Inner"
-        return None
-    exp = {0: (0, v), 1: (0, v + 1), 2: (0, 1000 + 3 * e), 3: (0, 2000 + 37 * req + e),
-           4: ((0, bv + 13 * req) if bk == 0 else (2, bv)), 5: (1, 5000 + 7 * e)}[st]
-    if (kind, payload) != exp:
-        return "strategy %d produced %s, specified %s" % (st, (kind, payload), exp)
-    if (st == 4) != (n_b == 1) or (st == 4 and req_b != req):
-        return "backup service must be called iff strategy is Service, with the original request"
+    d = decode(t)
+    if d is None or len(s) < 8:
+        return "malformed or panicking run: %s" % t[:12]
+    calls, ready, flags, events = d
+    st, pm, v = s[0], s[1], s[2]
+    if not 0 <= st <= 5:
+        st = 5
+    ops = ops_of(s)
+    if len(flags) != len(ops):
+        return "trace has %d op flags for %d ops" % (len(flags), len(ops))
+    handled_fn = {0: lambda e: True, 1: lambda e: e % 2 == 0, 2: lambda e: True, 3: lambda e: False}[pm % 4]
+    reqs, inner_out, backup_out, ready_errs = [], {}, {}, []
+    for (o, a, b), f in zip(ops, flags):
+        if o == 1:
+            reqs.append(b)
+        elif o == 3 and f:
+            inner_out.setdefault(a, outcome(b))
+        elif o == 4 and f:
+            backup_out.setdefault(a, outcome(b))
+        elif o == 6:
+            ready_errs.append(b)
+    if len(reqs) != len(calls):
+        return "%d calls made, %d results" % (len(reqs), len(calls))
+    # events tagged -1 (a closure invoked outside any call() / poll of a call's future) cannot be attributed to a
+    # call: they are left to the trace comparison
+    for k, ((kind, payload), req) in enumerate(zip(calls, reqs)):
+        evs = [e for e in events if e[0] == k]
+        inner_evs = [e for e in evs if e[1] == 0]
+        fb_evs = [e for e in evs if e[1] != 0]
+        io = inner_out.get(k)
+        if len(inner_evs) > 1 or any(e[2] != req for e in inner_evs):
+            return "call %d: inner service must be called once with the original request %d, saw %s" % (k, req, inner_evs)
+        if fb_evs and (io is None or io[0] != 1):
+            return "call %d: the fallback (event %s) was triggered although the inner service did not fail (%s)" % (
+                k, fb_evs[0][1:], "no answer yet" if io is None else "answer %s" % (io,))
+        if kind not in (0, 1, 2):
+            continue
+        if io is None or len(inner_evs) != 1:
+            return "call %d completed without an answer of the inner service" % k
+        if io[0] == 0:
+            if (kind, payload) != (0, io[1]):
+                return "call %d: a successful inner response %d was replaced by %s" % (k, io[1], (kind, payload))
+            continue
+        if io[0] != 1:
+            continue
+        e = io[1]
+        strat_evs = [x for x in fb_evs if x[1] >= 2]
+        if not handled_fn(e):
+            if (kind, payload) != (1, e) or strat_evs:
+                return "call %d: error %d refused by the predicate must come back unchanged as Inner, got %s, strategy events %s" % (
+                    k, e, (kind, payload), strat_evs)
+            continue
+        if st == 4:
+            bo = backup_out.get(k)
+            bevs = [x for x in fb_evs if x[1] == 5]
+            if bo is None or len(bevs) != 1 or bevs[0][2] != req:
+                return "call %d: backup service must be called once with the original request %d (%s)" % (k, req, bevs)
+            exp = (0, bo[1]) if bo[0] == 0 else (2, bo[1]) if bo[0] == 1 else None
+            if exp is None:
+                continue
+        else:
+            if any(x[1] == 5 for x in fb_evs):
+                return "call %d: backup service called although the strategy is not Service" % k
+            exp = {0: (0, v), 1: (0, v + 1), 2: (0, 1000 + 3 * e), 3: (0, 2000 + 37 * req + e), 5: (1, 5000 + 7 * e)}[st]
+        if (kind, payload) != exp:
+            return "call %d (request %d, error %d): strategy %d produced %s, specified %s" % (k, req, e, st, (kind, payload), exp)
+    if len(ready) != len(ready_errs):
+        return "%d readiness checks, %d results" % (len(ready_errs), len(ready))
+    for (kind, payload), e in zip(ready, ready_errs):
+        ok = (kind, payload) == (1, e) or (st == 5 and handled_fn(e) and (kind, payload) == (1, 5000 + 7 * e))
+        if not ok:
+            return "readiness error %d came back as %s" % (e, (kind, payload))
     return None
 
 
 def nontrivial(s, t):
-    return s[4] == 1
+    d = decode(t)
+    if d is None:
+        return False
+    ops = ops_of(s)
+    return any(o == 3 and f and outcome(b)[0] == 1 for (o, a, b), f in zip(ops, d[2]))
 
 
 def classify(s, t):
-    return ["strategy%d" % s[0], "pred%d" % (s[1] % 4), "handle_first" if s[1] >= 4 else "handle_last", "inner_err" if s[4] else "inner_ok"]
+    out = ["strategy%d" % s[0], "pred%d" % (s[1] % 4), "handle_first" if (s[1] >> 2) & 1 else "handle_last"]
+    route = s[1] >> 3
+    if route:
+        out.append("route_convenience" if route & 16 and s[1] % 4 == 0 else "route_builder_variant")
+        for bit, name in ((1, "name_first"), (2, "on_event_between"), (4, "name_on_event_last"), (8, "strategy_overridden")):
+            if route & bit and not (route & 16 and s[1] % 4 == 0):
+                out.append(name)
+    ops = ops_of(s)
+    out.append("ops_script" if len(s) > 8 else "single_call")
+    d = decode(t)
+    if d:
+        calls, ready, flags, events = d
+        out.append("calls_%d" % min(len(calls), 4))
+        for (o, a, b), f in zip(ops, flags):
+            if o == 3 and f:
+                out.append(("inner_ok", "inner_err", "inner_panic")[outcome(b)[0]])
+            if o == 4 and f:
+                out.append(("backup_ok", "backup_err", "backup_panic")[outcome(b)[0]])
+            if o in (3, 4) and not f:
+                out.append("ineffective_done")
+            if o == 5 and f:
+                out.append("dropped")
+            if o == 6:
+                out.append("readiness_error")
+        for kind, _ in calls:
+            out.append("result_%d" % kind)
+        # overlapping: a call created while an earlier one is unfinished
+        if len(calls) > 1:
+            out.append("overlapping_calls")
+        out = sorted(set(out))
+    return out
+
+
+def shrink(s):
+    if len(s) <= 8:
+        return
+    n = (len(s) - 8) // 3
+    for i in range(n):
+        yield s[:8 + 3 * i] + s[8 + 3 * (i + 1):8 + 3 * n]
+    if s[1] >= 8:
+        yield [s[0], s[1] % 8] + s[2:]
